@@ -397,3 +397,44 @@ m('c05-r4-clamp-upper-bound-signed', 'C05', 'C05-R4', 'clamp:catch::convert::ini
 m('c11-r4-borrow-source-local', 'C11', 'C11-R4', 'borrow-source:create_difficulty_objects', diff='selftest/seed_diffs/C11-4.diff')
 # seed C07-4 itself: a map handed over by value is converted at construction time with GameMods::DEFAULT
 m('c07-r6-early-conversion-default-mods', 'C07', 'C07-R6', 'mods:any::performance::into::', diff='selftest/seed_diffs/C07-4.diff')
+# the advance_with helper of agent refactor C03-r15, but next() advances by two objects
+m('c15-r1-helper-next-skips', 'C15', 'C15-R1', 'CatchGradualPerformance::next', (
+    'src/catch/performance/gradual.rs', "self.advance_with(state, |difficulty| difficulty.nth(0))", "self.advance_with(state, |difficulty| difficulty.nth(1))"),
+  diff='selftest/refactor_diffs/C03-r15.diff')
+# the result-building helper of agent refactor C04-r13 handed altered attributes
+m('c04-r2-helper-embeds-altered', 'C04', 'C04-R2', 'osu:embedded', (
+    'src/osu/performance/calculator.rs', "values.into_attributes(self.attrs, pp, self.effective_miss_count)",
+    "values.into_attributes(OsuDifficultyAttributes { stars: pp, ..self.attrs }, pp, self.effective_miss_count)"),
+  diff='selftest/refactor_diffs/C04-r13.diff')
+# the clamp helper of agent refactor C05-r13 with its caller's `> 0.0` guard dropped (a negative / NaN attribute panics in clamp)
+m('c05-r4-helper-caller-guard-dropped', 'C05', 'C05-R4', 'clamp:osu::performance::calculator', (
+    'src/osu/performance/calculator.rs', "if self.attrs.n_sliders > 0 && self.attrs.aim_difficult_slider_count > 0.0 {", "if self.attrs.n_sliders > 0 {"),
+  diff='selftest/refactor_diffs/C05-r13.diff')
+# seed C06-4 itself: `if beat_len >= 0.0 { return 1.0 }` lets NaN through to the clamp of the bpm multiplier
+m('c06-r2-nan-reaches-clamp', 'C06', 'C06-R2', 'nan:DifficultyPoint::new', diff='selftest/seed_diffs/C06-4.diff')
+# the private clamp helper of agent refactor C06-r13 without its clamp
+m('c06-r2-helper-without-clamp', 'C06', 'C06-R2', 'TimingPoint:beat_len', (
+    'src/model/control_point/timing.rs', "        beat_len.clamp(Self::MIN_BEAT_LEN, Self::MAX_BEAT_LEN)", "        beat_len.max(Self::MIN_BEAT_LEN)"),
+  diff='selftest/refactor_diffs/C06-r13.diff')
+# the generic dispatch helper of agent refactor C07-r14 instantiated with the wrong mode in the Catch arm
+m('c07-r3-generic-helper-wrong-mode', 'C07', 'C07-R3', 'try_mode:Catch', (
+    'src/osu/performance/mod.rs', "            GameMode::Catch => self.convert_and_wrap::<CatchPerformance<'map>>(Performance::Catch),",
+    "            GameMode::Catch => self.convert_and_wrap::<TaikoPerformance<'map>>(Performance::Taiko),"),
+  diff='selftest/refactor_diffs/C07-r14.diff')
+# the hit-window carrier of agent refactor C08-r13 (DifficultyValues.hit_windows) filled from a builder that skips .difficulty(..)
+m('c17-r2-carrier-skips-funnel', 'C17', 'C17-R2', 'taiko:difficulty:great_hit_window', (
+    'src/taiko/difficulty/mod.rs', "        let hit_windows = map.attributes().difficulty(difficulty).hit_windows();",
+    "        let hit_windows = map.attributes().mods(difficulty.get_mods().clone()).hit_windows();"),
+  diff='selftest/refactor_diffs/C08-r13.diff')
+# the per-object delta value of agent refactor C14-r14 counting a spinner as a circle
+m('c14-r3-delta-wrong-counter', 'C14', 'C14-R3', 'osu::difficulty::gradual', (
+    'src/osu/difficulty/gradual.rs', "            OsuObjectKind::Spinner { .. } => Self {\n                n_spinners: 1,", "            OsuObjectKind::Spinner { .. } => Self {\n                n_circles: 1,"),
+  diff='selftest/refactor_diffs/C14-r14.diff')
+# the in-place section closing of agent refactor C16-r14 without the save (the open section is lost for export and aggregation)
+m('c16-r2-in-place-close-dropped', 'C16', 'C16-R2', 'into_current_strain_peaks', (
+    'src/util/macros.rs', "                self.save_current_peak();\n\n                self.strain_skill_strain_peaks\n", "                self.strain_skill_strain_peaks\n"),
+  diff='selftest/refactor_diffs/C16-r14.diff')
+# the closure-applying builder helper of agent refactor C18-r15 with the hp setter writing the cs slot
+m('c18-r5-closure-writes-other-slot', 'C18', 'C18-R5', 'hp', (
+    'src/any/difficulty/mod.rs', "self.with(|this| this.hp = Some(hp))", "self.with(|this| this.cs = Some(hp))"),
+  diff='selftest/refactor_diffs/C18-r15.diff')
